@@ -134,6 +134,11 @@ class TreeStatic(QuietMixin, web.StaticFileHandler):
     def get_content_type(self):
         return "text/plain"
 
+    def decode_argument(self, value, name=None):
+        # documented override point; the harness hands the capture over as str so that the UTF-8
+        # encode/decode round trip (4-way fork per free code point) is not re-explored here
+        return value
+
 
 SEGS = ["..", "", "a.txt", "d", "rootx", "/r/secret", ".", "\x00x", "s.txt", "%2e%2e", "/r/rootx", "root"]
 
@@ -146,28 +151,39 @@ def inside(p):
 NS = len(SEGS)
 
 
-def shard_choice():
-    """Small discrete choices enumerated by sharding (concrete per shard): first segment, length of
-    the free part, whether the free part goes in front."""
-    k = P.shard
-    ns = P.NSEG
-    a = k % ns
-    flen = (k // ns) % (P.F + 1)
-    ffront = (k // (ns * (P.F + 1))) % 2 == 1
-    return a, flen, ffront
+def shard_table(nseg, F, front):
+    """(first segment, free length, free part in front?, rootslash or None) per shard - small discrete
+    choices enumerated by sharding.  Shards with a free part fork most and are split by rootslash."""
+    t = []
+    for ff in ([False, True] if front else [False]):
+        for flen in range(F + 1):
+            if ff and flen == 0:
+                continue                       # no free part: position is irrelevant
+            for a in range(nseg):
+                if flen == 0:
+                    t.append((a, flen, ff, None))
+                else:
+                    t.append((a, flen, ff, False))
+                    t.append((a, flen, ff, True))
+    return t
 
 
 def pre_path(n: int, a: int, b: int, c: int, d: int, free: str, ffront: bool, rootslash: bool,
              deffile: bool) -> bool:
     if P.nshards > 1:
-        # sharded run: first segment / free length / free position are pinned per shard (equalities
-        # with concrete values; a modulo over a sum makes CrossHair wander through failing pres)
-        sa, sflen, sffront = shard_choice()
+        # sharded run: pinned per shard by equalities with concrete values (a modulo over a sum makes
+        # CrossHair wander through failing pres)
+        sa, sflen, sffront, srs = shard_table(P.NSEG, P.F, P.FRONT)[P.shard]
         if a != sa or len(free) != sflen or ffront != sffront:
             return False
-    elif not (0 <= a < P.NSEG and len(free) <= P.F):
+        if srs is not None and rootslash != srs:
+            return False
+    elif not (0 <= a < P.NSEG and len(free) <= P.F and (P.FRONT == 1 or not ffront)):
         return False
-    if not ((0 if a == 0 else 1) <= n <= P.N):
+    if len(free) == 0 and ffront:
+        return False
+    # up to N segments without a free part, up to NF with one
+    if not ((0 if a == 0 else 1) <= n <= (P.N if len(free) == 0 else P.NF)):
         return False
     ns = P.NSEG
     if not (0 <= b < ns and 0 <= c < ns and 0 <= d < ns):
@@ -180,9 +196,9 @@ def pre_path(n: int, a: int, b: int, c: int, d: int, free: str, ffront: bool, ro
 
 @harness(
     pre=pre_path,
-    quick=dict(N=2, F=1, NSEG=6, timeout=150, reach_timeout=250),
-    thorough=dict(N=3, F=2, NSEG=12, timeout=1400, reach_timeout=200),
-    nshards=dict(quick=24, thorough=72),   # must equal NSEG * (F+1) * 2
+    quick=dict(N=3, NF=2, F=1, NSEG=6, FRONT=0, timeout=150, reach_timeout=250),
+    thorough=dict(N=3, NF=3, F=2, NSEG=12, FRONT=1, timeout=1400, reach_timeout=200),
+    nshards=dict(quick=len(shard_table(6, 1, 0)), thorough=len(shard_table(12, 2, 1))),
     reach=["served", "redirected", "escape_refused", "prefix_sibling_refused"],   # "default_served" needs ~220 CPU-s unsharded: asserted, not a twin
     units=["web.StaticFileHandler.get", "web.StaticFileHandler.parse_url_path",
            "web.StaticFileHandler.get_absolute_path", "web.StaticFileHandler.validate_absolute_path",
@@ -194,8 +210,8 @@ def pre_path(n: int, a: int, b: int, c: int, d: int, free: str, ffront: bool, ro
            "content access via the documented override points (get_content, get_content_size, "
            "get_modified_time, get_content_type, get_content_version)",
            "URL path = up to N segments from the first NSEG entries of the pool ('..','.','','a.txt','d','rootx','/r/secret','\\\\0x','s.txt',"
-           "'%2e%2e','/r/rootx','root') joined by '/', plus up to F free code points at the front or the end; "
-           "handed to _execute as the already-unquoted routing capture; request path = '/static/' + its wire form (NUL / non-printable free code points percent-encoded)",
+           "'%2e%2e','/r/rootx','root') joined by '/', plus up to F free code points at the end (thorough: also at the front; in quick an absolute/odd first segment is covered by the pooled '' and '/r/secret' segments); up to N segments without a free part, NF with one; "
+           "handed to _execute as the already-unquoted, already-decoded routing capture (decode_argument overridden to the identity); request path = '/static/' + its wire form (NUL / non-printable free code points percent-encoded)",
            "recording connection, virtual loop, fixed clock, logging off (harness/_sec_rig.py)"],
     outside=["symlinks", "Windows separators", "filesystem races", "root == '/' (validation deliberately off)"],
 )
@@ -220,7 +236,7 @@ def h_path(n: int, a: int, b: int, c: int, d: int, free: str, ffront: bool, root
         if deffile:
             kw["default_filename"] = "index.html"
         handler = TreeStatic(app, req, **kw)
-        t = env.spawn(handler._execute([], url.encode("utf-8")))
+        t = env.spawn(handler._execute([], url))
         env.run_ready()
         assert t.done() and t.exception() is None
     assert conn.finished
